@@ -402,6 +402,82 @@ func init() {
 					c17judge(c, cs, in, out, dfi.f, want)
 				},
 			},
+			{
+				// (a) requests for more than a million points (an interval far shorter than the line): still floor(length/d)+1
+				// of them, the k-th at k*d. (b) lines that are almost evenly spaced already (vertex k within a millionth of a
+				// step of k/(N-1)) resampled to as many points as they have vertices: the result is evenly spaced, not "almost".
+				Name: "very-many-points-and-almost-even-lines", Count: h.Fixed(300, 30000), BudgetSec: 120,
+				Run: func(c *h.Ctx, idx uint64, r *h.Rand) {
+					if idx%100 == 7 {
+						// ---- (a): an axis-parallel integer line (lengths and positions exact)
+						a, b := float64(r.Range(300000, 900000)), float64(r.Range(300000, 900000))
+						in := orb.LineString{{0, 0}, {a, 0}, {a, b}}
+						total := a + b
+						d := []float64{1, 0.5, 0.75}[r.Intn(3)]
+						want := int(math.Floor(total/d)) + 1
+						cs := c17case{sv(in), "planar.Distance", 0, d}
+						c.Note([]byte(sv(cs)))
+						out := resample.ToInterval(cloneLS(in), planar.Distance, d)
+						c.Eval()
+						c.Max("points requested from one ToInterval call", float64(want), nil)
+						if len(out) != want {
+							c.Fail("", "wrong number of points", map[string]interface{}{"case": cs, "want": want, "got": len(out)})
+							return
+						}
+						for k := 0; k < want-1; k += 1 + r.Intn(64) {
+							s := float64(k) * total / float64(want-1)
+							w := orb.Point{s, 0}
+							if s > a {
+								w = orb.Point{a, s - a}
+							}
+							if math.Abs(out[k][0]-w[0]) > 1e-6 || math.Abs(out[k][1]-w[1]) > 1e-6 {
+								c.Fail("", "k-th point is not at k/(N-1) of the length along the line", map[string]interface{}{"case": cs, "k": k, "got": sv(out[k]), "want": sv(w)})
+								return
+							}
+						}
+						if out[want-1] != in[2] {
+							c.Fail("", "last point is not the line's end", map[string]interface{}{"case": cs})
+						}
+						c.Nontrivial(h.Mix(hashPts(in), math.Float64bits(d)))
+						return
+					}
+					// ---- (b)
+					n := r.Range(3, 40)
+					step := r.Uniform(0.5, 3)
+					dir := r.Float64() * 2 * math.Pi
+					if r.Bool() {
+						dir = float64(r.Intn(4)) * math.Pi / 2
+					}
+					ux, uy := math.Cos(dir), math.Sin(dir)
+					if r.Bool() {
+						ux, uy = float64(r.Range(-1, 1)), 0
+						if ux == 0 {
+							uy = 1
+						}
+					}
+					rel := []float64{5e-7, 1e-7, 2e-8, 9e-7, 1e-6}[r.Intn(5)]
+					in := make(orb.LineString, n)
+					for k := range in {
+						t := float64(k) * step
+						if k > 0 && k < n-1 && r.Bool() {
+							t += step * rel * float64(r.Range(-1, 1))
+						}
+						in[k] = orb.Point{t * ux, t * uy}
+					}
+					cs := c17case{sv(in), "planar.Distance", n, 0}
+					c.Note([]byte(sv(cs)))
+					out := resample.Resample(cloneLS(in), planar.Distance, n)
+					c.Eval()
+					c17judge(c, cs, in, out, planar.Distance, n)
+					total, _ := c17total(in, planar.Distance)
+					out = resample.ToInterval(cloneLS(in), planar.Distance, total/float64(n-1))
+					c.Eval()
+					cs.N = int(math.Floor(total/(total/float64(n-1)))) + 1
+					c17judge(c, cs, in, out, planar.Distance, cs.N)
+					c.Count("almost_evenly_spaced_lines", 1)
+					c.Nontrivial(h.Mix(hashPts(in), uint64(n)))
+				},
+			},
 		},
 	})
 }
